@@ -27,7 +27,10 @@ LabelDeletions(labels, i, amp) ==
        IN {<<labels[i]>> \o x : x \in rest} \cup (IF IsSubLabel(labels[i], amp) THEN rest ELSE {})
 HostResults(labels, o) ==
   LET R == IF o.sub THEN LabelDeletions(labels, 1, o.amp) ELSE {labels}
-  IN IF o.amp THEN R \cup {StripAmpDash(x) : x \in R} ELSE R
+      \* a leading 'amp-' removed, then possibly the irrelevant labels it was hiding ('amp-www.x.com')
+      A == {StripAmpDash(x) : x \in R}
+      A2 == IF o.sub THEN UNION {LabelDeletions(x, 1, o.amp) : x \in A} ELSE A
+  IN IF o.amp THEN R \cup A \cup A2 ELSE R
 
 \* decoded-segment versions of the AMP / index rules
 LowerB(bs) == [i \in 1..Len(bs) |-> IF bs[i] >= 65 /\ bs[i] <= 90 THEN bs[i] + 32 ELSE bs[i]]
